@@ -3,7 +3,7 @@ import json, os
 import vlib
 
 QUICK = dict(KPoss="{1, 2}", ColOps='{"none", "addC1", "addC0", "remB", "remA", "swap"}',
-             States1='{"same", "removed", "A1", "B1", "X"}', States2='{"same", "A1"}', States3='{"absent", "add1"}')
+             States1='{"same", "removed", "A1", "A2", "B1", "X"}', States2='{"same", "A1"}', States3='{"absent", "add1"}')
 THOROUGH = dict(KPoss="{1, 2, 3}", ColOps='{"none", "addC1", "addC2", "addC0", "remB", "remA", "swap", "renB"}',
                 States1='{"same", "removed", "A1", "A2", "B1", "A1B1", "X"}', States2='{"same", "removed", "A1", "B1"}',
                 States3='{"absent", "add1", "add2"}')
